@@ -127,7 +127,7 @@ class C20(core.Check):
     def generate(self, seed, tier):
         s = core.Streams(seed)
         k, r, w = s("knobs"), s("ops"), s("workload")
-        weights = {"loaders": 4, "writers": 4, "cycle": 4, "format": 3, "validate": 3, "schema": 0.15}
+        weights = {"loaders": 4, "writers": 4, "cycle": 4, "format": 3, "validate": 3, "schema": 0.15, "failed_load": 1.5}
         for x in list(weights):
             if k.random() < 0.2:
                 weights[x] = 0
@@ -142,6 +142,13 @@ class C20(core.Check):
                 lead = r.choice(["", "", "\n\n", "   ", "# header\n", "\r\n \t"])
                 ops.append({"op": "loaders", "text": lead + self.gen_doc(w, strings, nl=r.choice(["\n", "\n", "\r\n"]), comments=r.choice([0, 0.3])),
                             "kw": {"include_comments": r.random() < 0.3, "include_position": r.random() < 0.3}, "bom": False})
+            elif name == "failed_load":
+                # a file with comments and then a syntax error: every front end must refuse it, and the refusal
+                # must leave nothing behind for the loads that follow
+                good = self.gen_doc(w, r.sample(PLAIN_STRINGS, 3), comments=0.8)
+                ops.append({"op": "failed_load", "text": "# leading comment\n" + workload.break_text(r, good), "via": r.choice(["open", "load", "loads"])})
+                strings = r.sample(PLAIN_STRINGS, 3)
+                ops.append({"op": "loaders", "text": self.gen_doc(w, strings, comments=0.5), "kw": {"include_comments": True, "include_position": False}, "bom": False})
             elif name == "cycle":
                 vals = []
                 for _ in range(3):
@@ -224,7 +231,19 @@ class C20(core.Check):
                 os.makedirs(d)
                 name = op["op"]
                 bump("op." + name)
-                if name == "loaders":
+                if name == "failed_load":
+                    p_ = os.path.join(d, "bad.map")
+                    with open(p_, "wb") as f_:
+                        f_.write(op["text"].encode("utf-8"))
+                    if op["via"] == "open":
+                        r_ = core.call(lambda: self.mf.open(p_, include_comments=True))
+                    elif op["via"] == "load":
+                        with open(p_, "r", encoding="utf-8", newline="") as fp_:
+                            r_ = core.call(lambda: self.mf.load(fp_, include_comments=True))
+                    else:
+                        r_ = core.call(lambda: self.mf.loads(op["text"], include_comments=True))
+                    bump("fault.unparseable_document_loaded" if r_[0] == "exc" else "reach.damaged_document_still_parses")
+                elif name == "loaders":
                     violation = self.op_loaders(op, d, viol, bump)
                 elif name == "writers":
                     violation = self.op_writers(op, d, viol, bump)
